@@ -4,7 +4,7 @@ import json
 import os
 import sys
 
-from .. import common as C
+from .. import common as C, battery as B
 
 sys.path.insert(0, os.path.join(C.VERIF, 'extract'))
 sys.path.insert(0, C.HARNESS)
@@ -55,7 +55,21 @@ def run(tier):
     else:
         k = res.distinct - 1
         chk.violation('forms_trace_rejected', f'Trace_Forms rejected event {k}: {evs[k] if k < len(evs) else None}', evs[k] if k < len(evs) else None)
-    chk.count(evaluations=sum(e['n'] for e in evs), distinct=len(evs))
+    # ---- K2: TLC-generated histories with unit actions (construct in a unit, Create<unit>, Value(unit), StaticValue<unit>, Print(unit))
+    bexe, bqs, bks = B.build()
+    bs, stats, sims = B.generate_behaviours(150 if not thorough else 2000)
+    ub = [x for x in bs if x[1] != 0]
+    for (n, caps), r in sorted(sims.items()):
+        if caps.startswith('F'):
+            chk.add_tlc(f'Store simulate with unit actions ncomp={n} {caps}', r)
+    suite = B.write_suite(os.path.join(wd, 'unit_suite.txt'), ub)
+    rev = B.run_modes(bexe, bks, ['replay'], suite=suite)
+    rres, rresult = B.validate(rev, bqs, wd, 'c02k2')
+    B.report(chk, 'Trace_Battery(replay of unit histories)', [e for e in rev if e['behaviours']], rres, rresult, {'replay'})
+    chk.cov['traces_validated_against_impl'] += sum(e['behaviours'] for e in rev)
+    chk.layer('A.K2', unit_behaviours=len(ub), replays=sum(e['behaviours'] for e in rev), types_with_integer_factor_unit=len({e['type'] for e in rev if e['behaviours']}),
+              note='Store.tla unit actions with the SI magnitude of the unit taken from its symbol (1000, 60, 10000, 10^6); values read back must snap to the specification within 4 ulps, stored states must be exact')
+    chk.count(evaluations=sum(e['n'] for e in evs) + sum(e['steps'] for e in rev), distinct=len(evs) + len(ub))
     chk.cov['rule'] = ('free functions: for every unit of every unit type, pairs (u,u), (u,next), two random partners (non-standard to non-standard included; '
                        'thorough: all ordered pairs) x 13 run-time forms x 3 numeric types, std::vector lengths 0, 1, 7; compile-time forms for (u,std), (std,u), '
                        '(u,next); accessors: every (dimensional quantity type, unit) x 3 numeric types x 10 forms; inputs: distinct integers per slot and random mantissas')
